@@ -329,7 +329,7 @@ func E2E(run *core.Run) {
 		distinct.Add(tr.Name)
 		run.Add("observations", int64(len(tr.Lines)))
 	}
-	out, err := tv.Validate(relayTraceSpec, nil, traces, 6)
+	out, err := tv.ValidateChunks(relayTraceSpec, nil, traces, 6, 2, 10)
 	if out != nil {
 		run.Add("traces_validated_against_impl", int64(out.Accepted+len(out.Rejects)))
 		run.Add("states", out.TLCStates)
